@@ -3,6 +3,7 @@ package main
 import (
 	"fmt"
 	"go/types"
+	"sort"
 	"strconv"
 	"strings"
 
@@ -323,6 +324,7 @@ func runC13(c *Ctx) {
 	c.Assumptions = append(c.Assumptions, "NOT decided: that white space and comments never produce or split tokens and that the literal scanners stop where they should (skipWhitespace, scanComment, scanString, scanRawString, scanChar are loops over the input)")
 	c.Trusted = append(c.Trusted, "go/types", "go/ssa", "checker/sx.go")
 	checkScanComment(c, p, "R13.4")
+	checkSkipWhitespace(c, p, "R13.5")
 	c.Explanation = "C13, thin: decided is that layout and spelling have no channel into the generated output other than the sequence of (type, text) pairs: the front-end token has no position field and no type of package ast holds a position (R13.1); a character literal's raw spelling is stored but never read — every consumer uses the decoded value or the rendering computed from it (R13.2); decoding follows Go's table (R13.3, shared with C20); a string literal's content is its text without the first and last byte whatever the quote character (R13.4). NOT decided: the scanner's loops (white space, comments, literal ends), which is why this is a thin claim."
 }
 
@@ -491,4 +493,53 @@ func checkScanComment(c *Ctx, p *Prog, rule string) {
 		got := evs(out, "consume", "error") + "|" + t
 		stepOb(c, out, rule, "line comment, next is "+wd.name, got == wd.want && (t != "cut" || out.CutBlock == hs[0]), fmt.Sprintf("got %s %s; required %s — the comment runs up to, not including, the line break; without one it is not terminated", got, out.Undecided, wd.want), p.FnPos(fn))
 	}
+}
+
+// R13.5: what counts as white space (user guide: space, tab, line feed, carriage return)
+func checkSkipWhitespace(c *Ctx, p *Prog, rule string) {
+	fn := p.Func("internal/frontend/scanner", "*Scanner.skipWhitespace")
+	if fn == nil {
+		c.Undecided(rule, "scanner skipWhitespace", "function not found")
+		return
+	}
+	hs := loopHeaders(fn)
+	if len(hs) != 1 {
+		c.Undecided(rule, "scanner skipWhitespace", "expected one loop", p.FnPos(fn))
+		return
+	}
+	recv := fn.Params[0].Name()
+	vals := map[int64]bool{' ': true, '\t': true, '\n': true, '\r': true, -1: true, 'a': true, '/': true, 0x0b: true, 0x0c: true, 0xa0: true, 0x2028: true}
+	for _, k := range comparedConstants(fn) {
+		vals[k] = true
+		vals[k-1] = true
+		vals[k+1] = true
+	}
+	var keys []int64
+	for k := range vals {
+		keys = append(keys, k)
+	}
+	sort.Slice(keys, func(i, j int) bool { return keys[i] < keys[j] })
+	bad := 0
+	first := ""
+	for _, ch := range keys {
+		n := 0
+		reg := &Region{Fn: fn, Start: hs[0], Cuts: cutSet(hs[0]), Summaries: map[string]Summary{
+			"*.next": func(r *Run, cc *ssa.CallCommon, args []Val) (Val, error) { n++; return VTuple{}, nil }},
+			Lazy: func(o *Obj, path string, t types.Type) Val {
+				if o.Name == recv && path == ".ch" {
+					return intConst(ch)
+				}
+				return nil
+			}}
+		out := InterpretSafe(reg, &MapWorld{})
+		ws := ch == ' ' || ch == '\t' || ch == '\n' || ch == '\r'
+		ok := (ws && termOf(out) == "cut" && n == 1) || (!ws && strings.HasPrefix(termOf(out), "return") && n == 0)
+		if !ok {
+			bad++
+			if first == "" {
+				first = fmt.Sprintf("character %d: %s after %d consumed %s", ch, termOf(out), n, out.Undecided)
+			}
+		}
+	}
+	c.Ob(rule, "scanner skipWhitespace", bad == 0, fmt.Sprintf("%d characters tried (the constants the code compares with, their neighbours, EOF and other Unicode spaces); %d disagree with: exactly space, tab, line feed and carriage return are skipped, one per round. %s", len(keys), bad, first), p.FnPos(fn))
 }
